@@ -454,6 +454,11 @@ func (fc *FnCtx) fmtVerb(verb string, v ssa.Value) Term {
 		e.GAxiom("fmt08x_shape", "(assert (forall ((n Int)) (! (=> (and (<= 0 n) (< n 4294967296)) (str.in_re (fmt08x n) ((_ re.loop 8 8) (re.union (re.range \"0\" \"9\") (re.range \"a\" \"f\"))))) :pattern ((fmt08x n)))))", "fmt08x")
 		return T(SString, "(fmt08x %s)", t.S)
 	}
+	if verb == "%03o" && isInt {
+		e.GDecl("fmt03o", "(declare-fun fmt03o (Int) String)")
+		e.GAxiom("fmt03o_shape", "(assert (forall ((n Int)) (! (=> (and (<= 0 n) (< n 512)) (and (= (str.len (fmt03o n)) 3) (str.in_re (fmt03o n) ((_ re.loop 3 3) (re.range \"0\" \"7\"))))) :pattern ((fmt03o n)))))", "fmt03o")
+		return T(SString, "(fmt03o %s)", t.S)
+	}
 	// [16]byte arrays (md5.Sum results) with %x
 	if verb == "%x" {
 		if _, ok := ty.Underlying().(*types.Array); ok {
